@@ -1253,6 +1253,10 @@ def _inv_trees(M, L):
     return res
 
 
+MODULI_OF = {"NeoHookean": ["K"], "MooneyRivlin": ["K", "K1", "K2"], "CiarletGeymonat": ["K", "K1", "K2"],
+             "SaintVenantKirchhoff": ["lmbda", "mu", "K"], "HolzapfelOgden": ["C0", "C2", "C4", "C6", "K", "Mu1", "Mu2"]}
+
+
 def emit_ref(M):
     comp = [HDR % "EasyFEA/Models/HyperElastic/_laws.py + _state.py",
             "From Coq Require Import Reals List.", "From EFP Require Import Gen_HyperLaws.", "Open Scope R_scope.", ""]
@@ -1288,6 +1292,15 @@ def emit_ref(M):
         out.append("Lemma %s_ref_scalars : forall %s %s,\n  %s_W %s %s = 0 /\\ %s = 0 /\\ %s_S4 %s %s = 0 /\\ %s_S6 %s %s = 0 /\\ %s_S8 %s %s = 0."
                    % (n, ps, " ".join(free), n, ps, ra, iso, n, ps, ra, n, ps, ra, n, ps, ra))
         out.append("Proof. intros. unfold %s. repeat split; refsolve. Qed." % ", ".join(["%s_W" % n] + ["%s_S%d" % (n, k) for k in INV]))
+        # homogeneity in the moduli (change of the unit of stress): W and every tabulated coefficient are linear in them
+        mod = [q for q in MODULI_OF.get(n, []) if q in L["params"]]
+        if mod:
+            sargs = " ".join("(s * %s)" % q if q in mod else q for q in L["params"])
+            conj = ["%s_W %s %s = s * %s_W %s %s" % (n, sargs, " ".join(IV), n, ps, " ".join(IV))]
+            conj += ["%s_S%d %s %s = s * %s_S%d %s %s" % (n, k, sargs, " ".join(IV), n, k, ps, " ".join(IV)) for k in INV if k in T]
+            out.append("Theorem %s_moduli_homogeneous : forall s %s %s, 0 < I3 ->\n  %s." % (n, ps, " ".join(IV), " /\\\n  ".join(conj)))
+            out.append("Proof. intros s %s %s H3. unfold %s. repeat split; field; conds; try (apply sqrt_lt_R0; assumption); try (apply Rgt_not_eq; apply sqrt_lt_R0; assumption). Qed."
+                       % (ps, " ".join(IV), ", ".join(["%s_W" % n] + ["%s_S%d" % (n, k) for k in INV if k in T])))
         # composite theorem
         hyps = []
         if 4 in T:
